@@ -16,3 +16,56 @@ PROPS = {
     "C12": {"families": [_NEWRULE]},
     "C18": {"families": [_NEWRULE]},
 }
+
+# bin/vconfig.py merges the FAMILIES and DEFECTS of an already registered property but replaces the
+# other keys (rule, explanation, assumptions, extra, level, coverage_extra) by those of the file loaded
+# last -- this one.  Carry the earlier groups' keys over, and append our own remarks.
+import glob as _g
+import importlib.util as _u
+import os as _o
+
+
+def _inherited():
+    here = _o.path.dirname(_o.path.abspath(__file__))
+    me = _o.path.basename(__file__)
+    acc = {}
+    for f in sorted(_g.glob(_o.path.join(here, "vconfig_*.py"))):
+        if _o.path.basename(f) >= me:
+            continue
+        spec = _u.spec_from_file_location("_i2_" + _o.path.basename(f)[:-3], f)
+        m = _u.module_from_spec(spec)
+        m.fam = fam
+        try:
+            spec.loader.exec_module(m)
+        except Exception:
+            continue
+        for k, v in getattr(m, "PROPS", {}).items():
+            d = acc.setdefault(k, {})
+            for kk, vv in v.items():
+                if kk not in ("families", "defects"):
+                    d[kk] = vv
+    return acc
+
+
+_NOTE = {
+    "C03": " i2.pat / i2.match (integration): the pattern oracle of Match is the composed model modelPat "
+           "(group A's regexPat for /regex/ rules, group G's compiledAccepts otherwise), compared with the rule's own "
+           "preparePattern + MatchString; spec column = maskAccepts for mask patterns.",
+    "C04": " i2.match (integration): the whole of NetworkRule.Match in the model, no Go pattern table; spec = specMatchFull "
+           "(modifiers as set membership + documented mask language). i2.newrule: complete NewRule model, full record dump.",
+    "C05": " i2.match (integration): Match with the shortcut test and the modelled pattern, no oracle.",
+    "C10": " i2.newrule (integration): $dnsrewrite values parsed inside the complete NewRule model (group H's loadDNSRewrite "
+           "instantiated in group E's option parser), full record dump.",
+    "C12": " i2.newrule (integration): rules.NewRule vs the complete parser model (TrimSpace, dispatch, hosts, cosmetic, network, "
+           "every modifier); Go-supplied tables only for netip and the shortcut of /regex/ rules.",
+    "C18": " i2.newrule (integration): hosts lines through the complete NewRule model (group H's NewHostRule over group E's "
+           "IsDomainName, group D's TrimSpace), full H record dump.",
+}
+
+_inh = _inherited()
+for _k in list(PROPS):
+    _d = dict(_inh.get(_k, {}))
+    _d.update(PROPS[_k])
+    if "rule" in _d:
+        _d["rule"] = _d["rule"] + _NOTE.get(_k, "")
+    PROPS[_k] = _d
